@@ -28,6 +28,10 @@ differs only by local, behaviour-preserving refactoring idioms:
       constants) without break/continue/else is unrolled, the loop variables
       replaced by the constants; getattr(x, "name") -> x.name and
       setattr(x, "name", v) -> x.name = v
+  T14 a field cached in a local around a loop
+        v = X.f ; while T(v): v op= s ; X.f = v ; REST ; v = X.f
+      becomes  while T(X.f): X.f op= s ; REST   (v not read anywhere else)
+  T12 an if whose test consists of constants is replaced by the branch taken
   T7  `True if c else False` / `if c: return True; return False`
         with c a comparison              ->  c
       and a constant list on the right of in / not in becomes a tuple
@@ -112,6 +116,60 @@ def _is_boolean_expr(e):
     if isinstance(e, ast.BoolOp):
         return all(_is_boolean_expr(v) for v in e.values)
     return False
+
+
+def _continue_to_else(stmts):
+    """Loop body in which `if c: continue` guards at the top level of the
+    body are turned into `if not c: <rest>`; None when another continue /
+    break of this loop remains."""
+    out = []
+    for i, st in enumerate(stmts):
+        if isinstance(st, ast.If) and not st.orelse and len(st.body) == 1 \
+                and isinstance(st.body[0], ast.Continue):
+            rest = _continue_to_else(stmts[i + 1:])
+            if rest is None:
+                return None
+            if rest:
+                out.append(ast.copy_location(ast.If(
+                    test=negate(st.test), body=rest, orelse=[]), st))
+            return out
+        out.append(st)
+    return out
+
+
+def _static_truth(e):
+    """Truth of a test that consists of constants only; None otherwise."""
+    if isinstance(e, ast.Constant):
+        return bool(e.value)
+    if isinstance(e, ast.UnaryOp) and isinstance(e.op, ast.Not):
+        t = _static_truth(e.operand)
+        return None if t is None else not t
+    if isinstance(e, ast.BoolOp):
+        vals = [_static_truth(v) for v in e.values]
+        if isinstance(e.op, ast.And):
+            if any(v is False for v in vals):
+                return False
+            return True if all(v is True for v in vals) else None
+        if any(v is True for v in vals):
+            return True
+        return False if all(v is False for v in vals) else None
+    if isinstance(e, ast.Compare) and len(e.ops) == 1 and isinstance(
+            e.left, ast.Constant) and isinstance(
+                e.comparators[0], ast.Constant):
+        a, b = e.left.value, e.comparators[0].value
+        op = e.ops[0]
+        if isinstance(op, ast.Is):
+            return (a is b) if (a is None or b is None) else None
+        if isinstance(op, ast.IsNot):
+            return (a is not b) if (a is None or b is None) else None
+        try:
+            if isinstance(op, ast.Eq):
+                return a == b
+            if isinstance(op, ast.NotEq):
+                return a != b
+        except Exception:
+            return None
+    return None
 
 
 def _walk_same_loop(stmts):
@@ -449,10 +507,16 @@ class Canon:
                 for h in s.handlers:
                     h.body = self.block(h.body)
         stmts = self._unroll(stmts)
+        stmts = self._uncache(stmts)
         # empty branches left behind by dropped statements
         cleaned = []
         for s in stmts:
             if isinstance(s, ast.If):
+                st_ = _static_truth(s.test)
+                if st_ is not None:
+                    self.did("T12.constant-test")
+                    cleaned.extend(s.body if st_ else s.orelse)
+                    continue
                 s.body = [x for x in s.body if not isinstance(x, ast.Pass)]
                 s.orelse = [x for x in s.orelse
                             if not isinstance(x, ast.Pass)]
@@ -591,12 +655,16 @@ class Canon:
                 continue
             rows = []
             ok = True
+            row_names = set()
             for e in s.iter.elts:
                 if isinstance(e, ast.Constant):
                     rows.append(e)
                 elif isinstance(e, (ast.Tuple, ast.List)) and all(
-                        isinstance(x, ast.Constant) for x in e.elts):
+                        isinstance(x, (ast.Constant, ast.Name))
+                        for x in e.elts):
                     rows.append(e)
+                    row_names |= {x.id for x in e.elts
+                                  if isinstance(x, ast.Name)}
                 else:
                     ok = False
             tnames = [n.id for n in ast.walk(s.target)
@@ -616,11 +684,16 @@ class Canon:
             # no break / continue of this loop, loop variables not rebound
             # in the body and not read after the loop
             bad = False
-            for n in _walk_same_loop(s.body):
+            body = _continue_to_else(s.body)
+            if body is None:
+                bad = True
+                body = s.body
+            for n in _walk_same_loop(body):
                 if isinstance(n, (ast.Break, ast.Continue)):
                     bad = True
-            for n in ast.walk(ast.Module(body=s.body, type_ignores=[])):
-                if isinstance(n, ast.Name) and n.id in tnames and \
+            for n in ast.walk(ast.Module(body=body, type_ignores=[])):
+                if isinstance(n, ast.Name) and (
+                        n.id in tnames or n.id in row_names) and \
                         isinstance(n.ctx, (ast.Store, ast.Del)):
                     bad = True
             for later in stmts[idx + 1:]:
@@ -630,7 +703,7 @@ class Canon:
             if any(t in self.usage.banned for t in tnames):
                 bad = True
             size = sum(1 for n in ast.walk(ast.Module(
-                body=s.body, type_ignores=[])) if isinstance(n, ast.stmt))
+                body=body, type_ignores=[])) if isinstance(n, ast.stmt))
             if bad or size * len(rows) > 240:
                 out.append(s)
                 continue
@@ -640,11 +713,79 @@ class Canon:
                 else:
                     mapping = {e.id: v for e, v in zip(s.target.elts,
                                                        r.elts)}
-                for b in s.body:
+                for b in body:
                     nb = copy.deepcopy(b)
                     nb = _ConstSubst(mapping).visit(nb)
                     out.append(nb)
             self.did("T11.unroll")
+        return out
+
+    def _uncache(self, stmts):
+        out = []
+        i = 0
+        while i < len(stmts):
+            s = stmts[i]
+            nxt = stmts[i + 1] if i + 1 < len(stmts) else None
+            m = None
+            if (isinstance(s, ast.Assign) and len(s.targets) == 1
+                    and isinstance(s.targets[0], ast.Name)
+                    and isinstance(s.value, ast.Attribute)
+                    and isinstance(s.value.value, ast.Name)
+                    and isinstance(nxt, ast.While) and not nxt.orelse
+                    and len(nxt.body) >= 3):
+                v = s.targets[0].id
+                fld = ast.dump(s.value)
+                b = nxt.body
+                first, second, last = b[0], b[1], b[-1]
+                if (isinstance(first, ast.AugAssign)
+                        and isinstance(first.target, ast.Name)
+                        and first.target.id == v
+                        and isinstance(second, ast.Assign)
+                        and len(second.targets) == 1
+                        and ast.dump(_as_load(second.targets[0])) == fld
+                        and isinstance(second.value, ast.Name)
+                        and second.value.id == v
+                        and isinstance(last, ast.Assign)
+                        and len(last.targets) == 1
+                        and isinstance(last.targets[0], ast.Name)
+                        and last.targets[0].id == v
+                        and ast.dump(last.value) == fld
+                        and v not in self.usage.banned):
+                    mid = b[2:-1]
+                    used_mid = any(
+                        isinstance(n, ast.Name) and n.id == v
+                        for st in mid for n in ast.walk(st)) or any(
+                        isinstance(n, ast.Name) and n.id == v
+                        for n in ast.walk(first.value))
+                    # after the loop v must be overwritten before any read
+                    read_after = False
+                    for later in stmts[i + 2:]:
+                        names = [n for n in _preorder([later])
+                                 if isinstance(n, ast.Name) and n.id == v]
+                        if names:
+                            read_after = not (
+                                isinstance(later, ast.Assign) and
+                                len(later.targets) == 1 and
+                                isinstance(later.targets[0], ast.Name) and
+                                later.targets[0].id == v and
+                                len(names) == 1)
+                            break
+                    if not used_mid and not read_after:
+                        m = (v, s.value, first, mid)
+            if m is None:
+                out.append(s)
+                i += 1
+                continue
+            v, fexpr, first, mid = m
+            test = _ReplaceAll(v, fexpr).visit(copy.deepcopy(nxt.test))
+            tgt = copy.deepcopy(fexpr)
+            tgt.ctx = ast.Store()
+            step = ast.copy_location(ast.AugAssign(
+                target=tgt, op=first.op, value=first.value), first)
+            out.append(ast.copy_location(ast.While(
+                test=test, body=[step] + mid, orelse=[]), nxt))
+            self.did("T14.uncache-field")
+            i += 2
         return out
 
     def _loads_total(self, v):
